@@ -1,5 +1,5 @@
 # replay of a bounded stand-in violation: re-run native/c01_backends.py
 import sys
-print('fock lossChannel(T=0.9, cutoff=5): the Kraus operators are not complete, sum E^+E has diagonal [1.0, 1.0, 1.0, 1.0, 0.9999] (trace lost without any truncation)')
+print("MeasureHeterodyne(0.2, -0.3) | q[0] of 3 on gaussian: ('quad', 1, 0.0) = [0.2001, 0.6983], the documented action gives [0.1966, 0.6985]")
 print('REPLAY-VIOLATION')
 sys.exit(1)
